@@ -701,3 +701,362 @@ Proof.
     rewrite <- (i_ser c true s I fid v Ht), Nat.eqb_refl.
     apply IH. eapply inv_store; eauto.
 Qed.
+
+(** * steps that only touch the dependent's / awaiters' fields *)
+Record same_core (s x : node) : Prop := {
+  sc_agree : agree s x;
+  sc_seen : seen x = seen s;
+  sc_dirty : st_dirty x = st_dirty s;
+  sc_flag : flag x = flag s;
+  sc_woken : woken x = woken s;
+  sc_rx : rx_reg x = rx_reg s
+}.
+
+Lemma same_core_refl s : same_core s s.
+Proof. constructor; auto using agree_refl. Qed.
+Lemma same_core_trans a b d : same_core a b -> same_core b d -> same_core a d.
+Proof. intros [] []. constructor; try congruence. eapply agree_trans; eauto. Qed.
+
+Lemma inv_same_core c e s x : same_core s x -> INV c e s -> INV c e x.
+Proof.
+  intros [A Hs Hd Hf Hw Hr] I. apply (inv_transfer c e s); auto.
+  - intros H. rewrite Hd in H. rewrite (ag_cap _ _ A), (i_D c e s I H). symmetry.
+    apply capof_eq; [exact (ag_sigs _ _ A)|exact Hs].
+  - intros He. rewrite Hd, (ag_first_run _ _ A), Hs, (agree_curvals c _ _ A), Hf. exact (i_E c e s I He).
+Qed.
+
+Lemma wk_same_core s x : same_core s x -> WK s -> WK x.
+Proof.
+  intros [A Hs Hd Hf Hw Hr] [F1 F2 G]. constructor.
+  - rewrite (ag_task _ _ A), Hw, Hr. exact F1.
+  - rewrite (ag_task _ _ A), Hf, Hw. exact F2.
+  - intros f v fu. rewrite (ag_task _ _ A), (ag_futs _ _ A), Hw. apply G.
+Qed.
+
+Ltac sc_tac := constructor; [constructor; reflexivity|reflexivity..].
+
+Lemma sc_d_notify s : same_core s (d_notify s).
+Proof. unfold d_notify. sf. destruct (d_reg s); sc_tac. Qed.
+Lemma sc_d_mark_dirty s : same_core s (d_mark_dirty s).
+Proof. unfold d_mark_dirty. eapply same_core_trans; [|apply sc_d_notify]. sc_tac. Qed.
+
+Lemma sc_d_body c s : same_core s (d_body c s).
+Proof. unfold d_body. destruct (dep c =? 2)%nat; sc_tac. Qed.
+
+(** the dependent's check asks the node; the rest only touches the dependent *)
+Lemma d_update_ok c s : gc c -> INV c true s -> WK s ->
+  INV c true (snd (d_update c s)) /\ WK (snd (d_update c s)).
+Proof.
+  intros G I W. unfold d_update.
+  destruct (d_dirty s).
+  { cbn [snd]. split; [eapply inv_same_core; [|exact I]|eapply wk_same_core; [|exact W]]; sc_tac. }
+  destruct (negb (d_sub s)); [auto|].
+  destruct (n_update_other c true s G I) as (I1 & W1 & _). specialize (W1 W).
+  destruct (n_update c false s) as [a s1]. cbn [snd] in *.
+  assert (H : forall (b : bool) (x : node), same_core s1 x ->
+            INV c true (snd (b || d_dirty x, set_d_dirty false x)) /\ WK (snd (b || d_dirty x, set_d_dirty false x))).
+  { intros b x Sx. cbn [snd].
+    assert (S2 : same_core s1 (set_d_dirty false x)) by (eapply same_core_trans; [exact Sx|sc_tac]).
+    split; [eapply inv_same_core; eauto|eapply wk_same_core; eauto]. }
+  destruct a; [apply H, same_core_refl|].
+  destruct (dep c =? 2)%nat; [|apply H, same_core_refl].
+  destruct (negb (sg s1 2 / 2 =? d_seen s1)%Z); apply H.
+  - eapply same_core_trans; [|apply sc_d_mark_dirty]. sc_tac.
+  - sc_tac.
+Qed.
+
+Lemma d_loop_ok c fuel : gc c -> forall s, INV c true s -> WK s ->
+  INV c true (d_loop c fuel s) /\ WK (d_loop c fuel s).
+Proof.
+  intros G. induction fuel as [|f IH]; intros s I W; cbn [d_loop]; [auto|].
+  assert (S1 : same_core s (set_d_reg true s)) by sc_tac.
+  change (d_set (set_d_reg true s)) with (d_set s). destruct (d_set s).
+  2: { split; [eapply inv_same_core; eauto|eapply wk_same_core; eauto]. }
+  set (s2 := set_d_set false (set_d_reg true s)).
+  assert (S2 : same_core s s2) by sc_tac.
+  destruct (d_update_ok c s2 G (inv_same_core _ _ _ _ S2 I) (wk_same_core _ _ S2 W)) as (I3 & W3).
+  destruct (d_update c s2) as [u s3]. cbn [snd] in *.
+  apply IH.
+  - destruct (u || d_first s3); [|exact I3].
+    eapply inv_same_core; [|exact I3]. eapply same_core_trans; [|apply sc_d_body]. sc_tac.
+  - destruct (u || d_first s3); [|exact W3].
+    eapply wk_same_core; [|exact W3]. eapply same_core_trans; [|apply sc_d_body]. sc_tac.
+Qed.
+
+Lemma d_poll_ok c s : gc c -> INV c true s -> WK s -> INV c true (d_poll c s) /\ WK (d_poll c s).
+Proof.
+  intros G I W. unfold d_poll. destruct (d_woken s); [|auto].
+  assert (S1 : same_core s (set_d_woken false s)) by sc_tac.
+  apply d_loop_ok; [exact G|eapply inv_same_core; eauto|eapply wk_same_core; eauto].
+Qed.
+
+(** * the node's task *)
+Lemma n_poll_ok c s : gc c -> INV c true s -> WK s -> INV c true (n_poll c s) /\ WK (n_poll c s).
+Proof.
+  intros G I W. unfold n_poll. destruct (woken s); [|auto].
+  apply n_loop_inv; [exact G|].
+  assert (I1 : INV c true (set_woken false s)) by (apply inv_set_woken; exact I).
+  change (polled (set_woken false s)) with (polled s). destruct (polled s); [exact I1|].
+  assert (I2 : INV c true (set_polled true (set_woken false s))).
+  { destruct I1. constructor; sf; auto. }
+  change (st_dirty (set_polled true (set_woken false s))) with (st_dirty s).
+  destruct (st_dirty s); [|exact I2].
+  change (init_fut (set_polled true (set_woken false s))) with (init_fut s).
+  destruct (init_fut s) as [i|] eqn:Hi; [|exact I2].
+  (* the initial future is thrown away *)
+  destruct (i_init c true s I i Hi) as (Hfr & _).
+  assert (Ht : task s = TIdle).
+  { destruct (task s) as [|f v] eqn:Ht; [reflexivity|].
+    destruct (i_A c true s I f v Ht) as (Hfr' & _). congruence. }
+  destruct I2. constructor; sf; auto.
+  - intros f v H. rewrite Ht in H. discriminate.
+  - discriminate.
+Qed.
+
+(** * events *)
+(** like [agree], but the inputs may have changed *)
+Record agree2 (s x : node) : Prop := {
+  a2_version : version x = version s; a2_value : value x = value s;
+  a2_loading : loading x = loading s; a2_wakers : wakers x = wakers s;
+  a2_task : task x = task s; a2_init_fut : init_fut x = init_fut s;
+  a2_first_run : first_run x = first_run s; a2_futs : futs x = futs s;
+  a2_manual : manual x = manual s; a2_cap : cap x = cap s; a2_legit : legit x = legit s
+}.
+
+Lemma inv_transfer2 c e s x : INV c e s -> agree2 s x ->
+  length (seen x) = length (curvals c x) ->
+  (st_dirty x = false -> cap x = capof c x) ->
+  (e = true -> st_dirty x = true \/ first_run x = true \/ seen x <> curvals c x -> flag x = true) ->
+  INV c e x.
+Proof.
+  intros I A HL HD HE. destruct I, A. constructor; auto.
+  - intros f v. rewrite a2_task0, a2_version0. eauto.
+  - rewrite a2_loading0, a2_wakers0. eauto.
+  - intros v. rewrite a2_value0, a2_legit0. eauto.
+  - intros f v. rewrite a2_task0, a2_first_run0, a2_futs0, a2_cap0. eauto.
+  - rewrite a2_task0, a2_first_run0, a2_manual0, a2_value0, a2_cap0. eauto.
+  - rewrite a2_task0, a2_first_run0, a2_loading0. eauto.
+  - intros i. rewrite a2_init_fut0, a2_first_run0, a2_futs0, a2_cap0. eauto.
+Qed.
+
+Definition tracked (c : cfg) (i : nat) : bool :=
+  match shape c, i with
+  | O, O | O, 1%nat | 1%nat, O | 1%nat, 1%nat | 2%nat, O | S (S (S _)), O => true
+  | _, _ => false
+  end.
+
+Lemma sg_upd_other s l i j v : j <> i -> sigs l = upd i (fun _ => v) (sigs s) -> sg l j = sg s j.
+Proof. intros H E. unfold sg. rewrite E. apply nth_upd_other. exact H. Qed.
+
+Lemma untracked_same c s x i v : tracked c i = false -> sigs x = upd i (fun _ => v) (sigs s) ->
+  refetch_n x = refetch_n s -> curvals c x = curvals c s /\ inputs c x = inputs c s.
+Proof.
+  intros Ht Es Er.
+  assert (H0 : i <> 0%nat -> sg x 0 = sg s 0) by (intros H; apply (sg_upd_other s x i 0 v); [lia|exact Es]).
+  assert (H1 : i <> 1%nat -> sg x 1 = sg s 1) by (intros H; apply (sg_upd_other s x i 1 v); [lia|exact Es]).
+  unfold tracked in Ht. unfold curvals, inputs, m3_of, m2_of.
+  destruct (shape c) as [|[|[|n]]]; destruct i as [|[|i]]; try discriminate;
+    try (rewrite H0 by lia); try (rewrite H1 by lia); rewrite ?Er; auto.
+Qed.
+
+Lemma write_ok c s i v : INV c true s -> WK s ->
+  INV c true (write_marks c i (set_sigs (upd i (fun _ => v) (sigs s)) s)) /\
+  WK (write_marks c i (set_sigs (upd i (fun _ => v) (sigs s)) s)).
+Proof.
+  intros I W. set (s1 := set_sigs (upd i (fun _ => v) (sigs s)) s).
+  assert (A1 : agree2 s s1) by (constructor; reflexivity).
+  assert (W1 : WK s1) by (destruct W; constructor; auto).
+  assert (Hl1 : length (seen s1) = length (curvals c s1)).
+  { rewrite curvals_len. change (seen s1) with (seen s). rewrite (i_len c true s I), curvals_len. reflexivity. }
+  unfold write_marks.
+  set (s2 := match shape c, i with
+             | O, O | O, 1%nat => n_mark_dirty s1
+             | 1%nat, O | 1%nat, 1%nat => n_mark_check s1
+             | 2%nat, O => n_mark_check s1
+             | S (S (S _)), O => n_mark_check s1
+             | _, _ => s1 end).
+  assert (H2 : INV c true s2 /\ WK s2).
+  { destruct (tracked c i) eqn:Htr.
+    - (* a tracked signal: the node is told *)
+      assert (Hcases : (shape c = 0%nat /\ s2 = n_mark_dirty s1) \/ (shape c <> 0%nat /\ s2 = n_mark_check s1)).
+      { unfold tracked in Htr. unfold s2. destruct (shape c) as [|[|[|n]]]; destruct i as [|[|i]];
+          try discriminate; auto. }
+      destruct Hcases as [(Hs & ->)|(Hs & ->)].
+      + split; [|apply wk_mark_dirty; exact W1].
+        apply (inv_transfer2 c true s).
+        * exact I.
+        * destruct A1. unfold n_mark_dirty, n_notify. sf. destruct (rx_reg s1); constructor; auto.
+        * unfold n_mark_dirty, n_notify. sf. destruct (rx_reg s1); exact Hl1.
+        * rewrite (proj2 (flag_mark_dirty s1)). discriminate.
+        * intros _ _. exact (proj1 (flag_mark_dirty s1)).
+      + split; [|apply wk_notify; exact W1].
+        assert (Hf : flag (n_mark_check s1) = true /\ st_dirty (n_mark_check s1) = st_dirty s /\
+                     seen (n_mark_check s1) = seen s /\ cap (n_mark_check s1) = cap s).
+        { unfold n_mark_check, n_notify. sf. destruct (rx_reg s1); sf; auto. }
+        destruct Hf as (Hf1 & Hf2 & Hf3 & Hf4).
+        apply (inv_transfer2 c true s).
+        * exact I.
+        * destruct A1. unfold n_mark_check, n_notify. sf. destruct (rx_reg s1); constructor; auto.
+        * unfold n_mark_check, n_notify. sf. destruct (rx_reg s1); exact Hl1.
+        * rewrite Hf2, Hf4. intros Hd. rewrite (i_D c true s I Hd). unfold capof.
+          destruct (shape c); [congruence|]. rewrite Hf3. reflexivity.
+        * intros _ _. exact Hf1.
+    - (* an input the node does not read *)
+      assert (Es2 : s2 = s1).
+      { unfold tracked in Htr. unfold s2. destruct (shape c) as [|[|[|n]]]; destruct i as [|[|i]];
+          try discriminate; reflexivity. }
+      rewrite Es2. split; [|exact W1].
+      destruct (untracked_same c s s1 i v Htr eq_refl eq_refl) as (Hc & Hi).
+      apply (inv_transfer2 c true s); auto.
+      + change (st_dirty s1) with (st_dirty s). change (cap s1) with (cap s).
+        intros Hd. rewrite (i_D c true s I Hd). unfold capof. rewrite Hi. reflexivity.
+      + change (st_dirty s1) with (st_dirty s). change (first_run s1) with (first_run s).
+        change (seen s1) with (seen s). change (flag s1) with (flag s). rewrite Hc.
+        exact (i_E c true s I). }
+  destruct H2 as (I2 & W2).
+  destruct ((dep c =? 2)%nat && (i =? 2)%nat && d_sub s2); [|auto].
+  split; [eapply inv_same_core; [apply sc_d_notify|exact I2]|eapply wk_same_core; [apply sc_d_notify|exact W2]].
+Qed.
+
+Lemma refetch_ok c s : INV c true s -> WK s ->
+  INV c true (step c s Refetch) /\ WK (step c s Refetch).
+Proof.
+  intros I W. cbn [step]. set (s1 := set_refetch_n (refetch_n s + 1) s).
+  assert (A1 : agree2 s s1) by (constructor; reflexivity).
+  assert (W1 : WK s1) by (destruct W; constructor; auto).
+  assert (Hl1 : length (seen s1) = length (curvals c s1)).
+  { rewrite curvals_len. change (seen s1) with (seen s). rewrite (i_len c true s I), curvals_len. reflexivity. }
+  assert (Hi : inputs c s1 = inputs c s) by reflexivity.
+  destruct (shape c) as [|[|[|n]]] eqn:Hs.
+  1-3: split; [|exact W1]; apply (inv_transfer2 c true s); auto;
+    [ change (st_dirty s1) with (st_dirty s); change (cap s1) with (cap s); intros Hd;
+      rewrite (i_D c true s I Hd); unfold capof; rewrite Hs; try rewrite Hi; reflexivity
+    | change (st_dirty s1) with (st_dirty s); change (first_run s1) with (first_run s);
+      change (seen s1) with (seen s); change (flag s1) with (flag s);
+      replace (curvals c s1) with (curvals c s) by (unfold curvals; rewrite Hs; reflexivity);
+      exact (i_E c true s I) ].
+  (* resource-like: the refetch counter is part of the tracked memo *)
+  split; [|apply wk_notify; exact W1].
+  assert (Hf : flag (n_mark_check s1) = true /\ st_dirty (n_mark_check s1) = st_dirty s /\
+               seen (n_mark_check s1) = seen s /\ cap (n_mark_check s1) = cap s).
+  { unfold n_mark_check, n_notify. sf. destruct (rx_reg s1); sf; auto. }
+  destruct Hf as (Hf1 & Hf2 & Hf3 & Hf4).
+  apply (inv_transfer2 c true s).
+  - exact I.
+  - destruct A1. unfold n_mark_check, n_notify. sf. destruct (rx_reg s1); constructor; auto.
+  - unfold n_mark_check, n_notify. sf. destruct (rx_reg s1); exact Hl1.
+  - rewrite Hf2, Hf4. intros Hd. rewrite (i_D c true s I Hd). unfold capof. rewrite Hs, Hf3. reflexivity.
+  - intros _ _. exact Hf1.
+Qed.
+
+Lemma wk_notify_subs s : WK s -> WK (notify_subs s).
+Proof.
+  intros [F1 F2 G].
+  destruct (notify_subs_fields s) as (E1 & E2 & E3 & E4 & E5 & E6 & E7 & E8 & E9 & E10 & E11 & E12 & E13 & E14 & E15 & E16 & E17 & E18).
+  constructor.
+  - rewrite E12, E6, E7. exact F1.
+  - rewrite E12, E5, E6. exact F2.
+  - intros f v fu. rewrite E12, E15, E6. apply G.
+Qed.
+
+Lemma manual_ok c s v : INV c true s -> WK s ->
+  INV c true (step c s (ManualSet v)) /\ WK (step c s (ManualSet v)).
+Proof.
+  intros I W. cbn [step].
+  set (s1 := set_legit (v :: legit s) (set_manual true (set_value (Some v) s))).
+  assert (I1 : INV c true s1).
+  { destruct I. constructor; unfold s1; sf; auto.
+    - intros v0 Hv. inversion Hv. left. reflexivity.
+    - discriminate. }
+  split; [apply inv_notify_subs; exact I1|apply wk_notify_subs]. destruct W. constructor; auto.
+Qed.
+
+Lemma notify_ok c s : INV c true s -> WK s ->
+  INV c true (step c s Notify) /\ WK (step c s Notify).
+Proof. intros I W. cbn [step]. split; [apply inv_notify_subs; exact I|apply wk_notify_subs; exact W]. Qed.
+
+Lemma complete_ok c s f : INV c true s -> WK s ->
+  INV c true (complete f s) /\ WK (complete f s).
+Proof.
+  intros I W. unfold complete. destruct (nth_error (futs s) f) as [fu|] eqn:Hf; [|auto].
+  destruct (f_done fu || negb (f_alive fu)); [auto|].
+  set (s1 := set_futs (upd f (fun fu => mkFut (f_res fu) true (f_alive fu)) (futs s)) s).
+  assert (Hnth : forall g fg, nth_error (futs s1) g = Some fg ->
+            exists fg0, nth_error (futs s) g = Some fg0 /\ f_res fg = f_res fg0 /\ f_alive fg = f_alive fg0 /\
+                        (g <> f -> fg = fg0)).
+  { intros g fg Hg. unfold s1 in Hg. cbn in Hg. rewrite nth_error_upd in Hg.
+    destruct (Nat.eqb_spec g f) as [->|Hne].
+    - rewrite Hf in Hg. cbn in Hg. inversion Hg; subst. exists fu. repeat split; auto. congruence.
+    - exists fg. auto. }
+  assert (Hnth' : forall g fg0, nth_error (futs s) g = Some fg0 ->
+            exists fg, nth_error (futs s1) g = Some fg /\ f_res fg = f_res fg0 /\ f_alive fg = f_alive fg0).
+  { intros g fg0 Hg. unfold s1. cbn. rewrite nth_error_upd. destruct (g =? f)%nat; rewrite Hg; cbn; eauto. }
+  assert (I1 : INV c true s1).
+  { destruct I. constructor; unfold s1; sf; auto.
+    - intros g v Ht. destruct (i_A0 g v Ht) as (Hfr & fg0 & Hg0 & Hal & Hres). split; [exact Hfr|].
+      destruct (Hnth' g fg0 Hg0) as (fg & Hg & Er & Ea). exists fg. unfold s1 in Hg. cbn in Hg.
+      repeat split; [exact Hg|congruence|congruence].
+    - intros i Hi. destruct (i_init0 i Hi) as (Hfr & fg0 & Hg0 & Hal & Hres). split; [exact Hfr|].
+      destruct (Hnth' i fg0 Hg0) as (fg & Hg & Er & Ea). exists fg. unfold s1 in Hg. cbn in Hg.
+      repeat split; [exact Hg|congruence|congruence]. }
+  destruct (task s) as [|g v] eqn:Ht.
+  - change (task s1) with (task s). rewrite Ht. split; [exact I1|].
+    destruct W. constructor; unfold s1; sf; auto. intros g v fg Hg. rewrite Ht in Hg. discriminate.
+  - change (task s1) with (task s). rewrite Ht. destruct (Nat.eqb_spec g f) as [->|Hne].
+    + split; [apply inv_set_woken; exact I1|apply wk_woken].
+    + split; [exact I1|]. destruct W as [F1 F2 G]. constructor; unfold s1; sf; auto.
+      intros g' v' fg Hg' Hn Hd. rewrite Ht in Hg'. inversion Hg'; subst g' v'.
+      destruct (Hnth g fg Hn) as (fg0 & Hg0 & _ & _ & Hsame). rewrite (Hsame Hne) in Hd.
+      exact (G g v fg0 Ht Hg0 Hd).
+Qed.
+
+Lemma awaiter_ok c s a : INV c true s -> WK s ->
+  INV c true (poll_awaiter a s) /\ WK (poll_awaiter a s).
+Proof.
+  intros I W. unfold poll_awaiter. destruct (nth_error (awaiters s) a) as [[w|v|]|]; auto.
+  destruct (loading s) eqn:Hl.
+  - split; [|destruct W; constructor; auto]. destruct I. constructor; sf; auto. congruence.
+  - split; [|destruct W; constructor; auto]. destruct I. constructor; sf; auto.
+Qed.
+
+Lemma poll_task_ok c t s : gc c -> INV c true s -> WK s ->
+  INV c true (poll_task c t s) /\ WK (poll_task c t s).
+Proof.
+  intros G I W. unfold poll_task. destruct t as [|[|t]]; auto using n_poll_ok.
+  destruct (0 <? dep c)%nat; auto using d_poll_ok.
+Qed.
+
+Lemma run_all_ok c fuel : gc c -> forall picks s, INV c true s -> WK s ->
+  INV c true (run_all c fuel picks s) /\ WK (run_all c fuel picks s).
+Proof.
+  intros G. induction fuel as [|f IH]; intros picks s I W; cbn [run_all]; [auto|].
+  destruct (ready c s); [auto|].
+  destruct (poll_task_ok c (nth (Nat.modulo (hd 0%nat picks) (length (n :: l))) (n :: l) 0%nat) s G I W) as (I1 & W1).
+  apply IH; auto.
+Qed.
+
+Lemma step_ok c s ev : gc c -> INV c true s -> WK s -> INV c true (step c s ev) /\ WK (step c s ev).
+Proof.
+  intros G I W. destruct ev.
+  - apply write_ok; auto.
+  - apply refetch_ok; auto.
+  - apply manual_ok; auto.
+  - apply notify_ok; auto.
+  - apply complete_ok; auto.
+  - apply poll_task_ok; auto.
+  - apply run_all_ok; auto.
+  - cbn [step]. split; [destruct I; constructor; sf; auto|destruct W; constructor; auto].
+  - apply awaiter_ok; auto.
+Qed.
+
+(** * construction *)
+Lemma init_ok c initial : INV c true (init c initial) /\ WK (init c initial).
+Proof.
+  destruct c as [sh dp h o d ff].
+  assert (Hnth : forall (x : fut), nth_error [x] 0 = Some x) by reflexivity.
+  destruct sh as [|[|[|n]]]; destruct initial as [v0|]; destruct dp as [|dp];
+    (split; [constructor|constructor]); cbn; intros; try discriminate; try reflexivity; auto;
+    try (match goal with H : Some _ = Some _ |- _ => inversion H; subst end);
+    try (split; [reflexivity|eexists; split; [reflexivity|split; reflexivity]]);
+    try (left; reflexivity); try (right; reflexivity); try tauto.
+Qed.
